@@ -122,6 +122,13 @@ int varintDictBuild(varintDict *dict, const uint64_t *values, size_t count) {
         }
     }
 
+    /* The decoders reject dictionaries above VARINT_DICT_MAX_SIZE entries:
+     * refuse to build one that could be written but never read back. */
+    if (unique > VARINT_DICT_MAX_SIZE) {
+        free(sorted);
+        return -1;
+    }
+
     /* Ensure dictionary has enough capacity */
     if (unique > dict->capacity) {
         uint64_t *newValues =
@@ -197,6 +204,11 @@ size_t varintDictEncode(uint8_t *buffer, const uint64_t *values, size_t count) {
 size_t varintDictEncodeWithDict(uint8_t *buffer, const varintDict *dict,
                                 const uint64_t *values, size_t count) {
     if (!buffer || !dict || !values || count == 0) {
+        return 0;
+    }
+
+    /* Never write an encoding the decoders refuse to read */
+    if (dict->size > VARINT_DICT_MAX_SIZE) {
         return 0;
     }
 
